@@ -14,6 +14,7 @@
 -/
 import Proofs.Lemmas.ModeCts
 import Proofs.Lemmas.ModeCounter
+import Proofs.Lemmas.ModeCtsSpec
 import Proofs.Lemmas.ModeToy
 namespace Proofs.C05
 open Model Model.Mode Proofs.Lemmas.ModeL
@@ -39,6 +40,16 @@ theorem cbc_spec (h : Implements c k) (iv : List Nat) (hiv : IsBlock c.len iv) (
 theorem ctr_spec (h : Implements c k) (iv : Option (List Nat)) (hiv : CtrDom c.len iv) (M : List Nat) :
     CTR.enc c iv M = .ok (Spec.Mode.ctr k (iv.getD (List.replicate c.len 0)) M) :=
   ctr_enc_spec h iv hiv M
+
+/-- CTS_ECB.enc is ECB with ciphertext stealing (a block multiple is plain ECB) -/
+theorem cts_ecb_spec (h : Implements c k) (M : List Nat) (hM : Bytes M) (hlen : c.len ≤ M.length) :
+    CTS_ECB.enc c .no M = .ok (Spec.Mode.ecbCts k M) :=
+  cts_ecb_enc_spec h M hM hlen
+
+/-- CTS_CBC.enc is the IV followed by CBC-CS2 of the SP 800-38A addendum (last two blocks swapped iff the last one is partial) -/
+theorem cts_cbc_spec (h : Implements c k) (iv : List Nat) (hiv : IsBlock c.len iv) (M : List Nat) (hM : Bytes M)
+    (hlen : c.len ≤ M.length) : CTS_CBC.enc c iv .no M = .ok (Spec.Mode.cbcCts k iv M) :=
+  cts_cbc_enc_spec h iv hiv M hM hlen
 
 /-! ### decryption inverts encryption (with an equally configured object in any padding state `st`) -/
 
@@ -108,6 +119,55 @@ theorem cts_cbc_length (h : Implements c k) (iv : List Nat) (hiv : IsBlock c.len
     ∃ C, CTS_CBC.enc c iv .no M = .ok C ∧ C.length = M.length + c.len ∧ C.take c.len = iv := by
   obtain ⟨C, he, hl, hiv', _⟩ := cts_cbc_all h iv hiv M hM hlen
   exact ⟨C, he, hl, hiv'⟩
+
+/-- |ECB.enc(M)| = |pad(M)|: the next block multiple above |M| with a padding scheme, |M| itself without -/
+theorem ecb_length (h : Implements c k) (s : Spec.ModePad.Scheme) (M : List Nat) (hM : Bytes M) (hd : PadDom s c.len M) :
+    ∃ C, ECB.enc c (toModel s) M = .ok C ∧ C.length = if s = .none then M.length else (M.length / c.len + 1) * c.len :=
+  ⟨_, ecb_spec h s M hM hd, by
+    rw [ecb_length_of h s M (padFacts s c.len h.len_pos M hd hM), pad_length s c.len h.len_pos M]⟩
+
+/-- |CBC.enc(M)| = |pad(M)| + len, and the output starts with the IV -/
+theorem cbc_length (h : Implements c k) (iv : List Nat) (hiv : IsBlock c.len iv) (s : Spec.ModePad.Scheme) (M : List Nat)
+    (hM : Bytes M) (hd : PadDom s c.len M) :
+    ∃ C, CBC.enc c iv (toModel s) M = .ok C ∧ C.take c.len = iv ∧
+      C.length = (if s = .none then M.length else (M.length / c.len + 1) * c.len) + c.len :=
+  ⟨_, cbc_spec h iv hiv s M hM hd, List.take_left' hiv.1, by
+    rw [cbc_length_of h iv hiv s M (padFacts s c.len h.len_pos M hd hM), pad_length s c.len h.len_pos M]⟩
+
+/-! ### rejected configurations / ciphertexts -/
+
+/-- an IV that is not one block long is refused (the constructor's assert) -/
+theorem cbc_rejects_iv (iv : List Nat) (s : Scheme) (M : List Nat) (hiv : iv.length ≠ c.len) :
+    ∃ e, CBC.enc c iv s M = .error e := by
+  unfold CBC.enc
+  cases mkPad c s with
+  | error e => exact ⟨e, rfl⟩
+  | ok p => exact ⟨"AssertionError", by simp [hiv]⟩
+
+/-- ECB/CBC decryption refuses a ciphertext that is not a whole number of blocks -/
+theorem ecb_dec_rejects_length (s : Scheme) (C : List Nat) (st : PadState) (hC : C.length % c.len ≠ 0) :
+    ∃ e, ECB.dec c s C st = .error e := by
+  unfold ECB.dec
+  cases mkPad c s with
+  | error e => exact ⟨e, rfl⟩
+  | ok p => exact ⟨"AssertionError", by simp [hC]⟩
+
+theorem cbc_dec_rejects_length (iv : List Nat) (s : Scheme) (C : List Nat) (st : PadState) (hC : C.length % c.len ≠ 0) :
+    ∃ e, CBC.dec c iv s C st = .error e := by
+  unfold CBC.dec
+  cases mkPad c s with
+  | error e => exact ⟨e, rfl⟩
+  | ok p =>
+    by_cases hiv : iv.length = c.len
+    · exact ⟨"AssertionError", by simp [hiv, hC]⟩
+    · exact ⟨"AssertionError", by simp [hiv]⟩
+
+/-- a counter string that is not one block long is refused -/
+theorem ctr_rejects_counter (iv M : List Nat) (hiv : iv.length ≠ c.len) : ∃ e, CTR.enc c (some iv) M = .error e := by
+  unfold CTR.enc
+  cases mkPad c .no with
+  | error e => exact ⟨e, rfl⟩
+  | ok p => exact ⟨"AssertionError", by simp [DefaultCounter.new, hiv]⟩
 
 /-! ### non-vacuity: the hypotheses are inhabited by a non-trivial instance -/
 
